@@ -38,6 +38,10 @@ Fixpoint filter_until (p : pred) (l : list Z) : list Z :=
    done/error; never = nothing; transform = map; filter = filter; take_until, stop_immediately and
    type_erase never alter, reorder or add elements: they only end the sequence early (by stopping
    the source, which shows in H, or by dropping what arrives after the stop). *)
+(* the elements of an adapted stream: then(f) maps, the scheduler adaptors change nothing *)
+Definition adapt_elems (a : sadapt) (l : list Z) : list Z :=
+  match a with AThen f => map_until f l | _ => l end.
+
 Fixpoint sdenote (e : stexpr) (H : nat -> list outcome) : list Z :=
   match e with
   | SRange a b => zrange a (Z.to_nat (b - a))
@@ -49,6 +53,10 @@ Fixpoint sdenote (e : stexpr) (H : nat -> list outcome) : list Z :=
   | STakeUntil s _ _ => sdenote s H
   | SStopImm s => sdenote s H
   | STypeErase s => sdenote s H
+  | SNextAdapt a s => adapt_elems a (sdenote s H)
+  | SCleanupAdapt _ s => sdenote s H
+  | SAdapt1 a s => adapt_elems a (sdenote s H)
+  | SAdapt2 an _ s => adapt_elems an (sdenote s H)
   end.
 
 (* the fold the consumer computes over the elements it was given; [inr e] = its function threw e *)
@@ -79,6 +87,7 @@ Fixpoint ids_of (e : stexpr) : list nat :=
   match e with
   | SSrc id _ => [id]
   | STransform _ s | SFilter _ s | SStopImm s | STypeErase s => ids_of s
+  | SNextAdapt _ s | SCleanupAdapt _ s | SAdapt1 _ s | SAdapt2 _ _ s => ids_of s
   | STakeUntil s tid _ => tid :: ids_of s
   | _ => []
   end.
@@ -89,6 +98,7 @@ Fixpoint lossless (e : stexpr) : bool :=
   match e with
   | SStopImm _ | SNever => false
   | STransform _ s | SFilter _ s | STypeErase s => lossless s
+  | SNextAdapt _ s | SCleanupAdapt _ s | SAdapt1 _ s | SAdapt2 _ _ s => lossless s
   | STakeUntil s _ _ => lossless s
   | _ => true
   end.
